@@ -381,15 +381,42 @@ func (t *fnTrans) rangeAxiom(name, term, sort string) {
 	if !ok {
 		return
 	}
+	// references stored in a heap version never exceed the allocation mark of that version
+	topTerm := ""
+	if strings.HasSuffix(term, "@0|") {
+		topTerm = "|$top@0|"
+		if !t.declared["$top@0"] {
+			topTerm = ""
+		}
+	} else if t.st != nil {
+		if tp, ok := t.st.heaps["$top"]; ok {
+			topTerm = tp
+		} else if t.declared["$top@0"] {
+			topTerm = "|$top@0|"
+		}
+	}
 	var lo, hi string
 	switch c.Part {
 	case "":
 		l, h, ok := intRange(c.T)
 		if !ok {
-			return
+			switch under(c.T).(type) {
+			case *types.Pointer, *types.Map, *types.Chan:
+				if topTerm == "" {
+					return
+				}
+				hi = topTerm
+				lo = "(- 9223372036854775808)"
+			default:
+				return
+			}
+		} else {
+			lo, hi = num(l), num(h)
 		}
-		lo, hi = num(l), num(h)
-	case "arr", "tag":
+	case "arr":
+		lo = "0"
+		hi = topTerm
+	case "tag":
 		lo = "0"
 	case "off", "len", "cap":
 		lo, hi = "0", maxLenStr
@@ -834,6 +861,14 @@ func translateFunc(eng *Engine, fn *ssa.Function, ct *Contract) (t *fnTrans) {
 		}
 	}()
 	t.strict = ct.Strict
+	splitMacros = func(name string) ([]string, ast.Expr) {
+		if d := eng.cs.ByTarget["define "+fn.Pkg.Pkg.Path()+"."+name]; d != nil && d.DefExpr != nil && d.Flags["nosplit"] == "" {
+			if _, isBool := d.DefExpr.(*ast.BinaryExpr); isBool {
+				return d.DefParams, d.DefExpr
+			}
+		}
+		return nil, nil
+	}
 	if len(fn.Blocks) == 0 {
 		t.errorf("function has no body")
 		return
@@ -1396,19 +1431,20 @@ func (t *fnTrans) locate(li *loopInfo, ins ssa.Instruction, heaps map[string]boo
 			}
 			return nil
 		}
-		okAll := true
 		type pend struct {
 			heaps []string
 			root  string
+			whole bool
 		}
 		var pends []pend
 		for _, loc := range ct.Modifies {
+			hs := t.locHeapNames(ct, loc, c)
 			e, err := parseLoc(loc)
 			if err != nil {
-				okAll = false
-				break
+				pends = append(pends, pend{hs, "", true})
+				continue
 			}
-			hs := t.locHeapNames(ct, loc, c)
+			done := false
 			switch n := e.(type) {
 			case *ast.CallExpr:
 				id, _ := n.Fun.(*ast.Ident)
@@ -1419,84 +1455,80 @@ func (t *fnTrans) locate(li *loopInfo, ins ssa.Instruction, heaps map[string]boo
 								if fresh {
 									r = ""
 								}
-								pends = append(pends, pend{hs, r})
-								continue
+								pends = append(pends, pend{hs, r, false})
+								done = true
 							}
 						}
 					}
+					// elems(x.f): the array held in a field of a fixed object is not fixed itself -> whole
 				}
-				okAll = false
 			case *ast.StarExpr:
 				if pid, ok := n.X.(*ast.Ident); ok {
 					if av := argOf(pid.Name); av != nil {
 						if g, isG := av.(*ssa.Global); isG {
-							pends = append(pends, pend{hs, t.eng.globalRef(g)})
-							continue
+							pends = append(pends, pend{hs, t.eng.globalRef(g), false})
+							done = true
 						}
 					}
 				}
-				okAll = false
 			case *ast.Ident:
 				if o, isVar := t.eng.pkgOf(ct).Scope().Lookup(n.Name).(*types.Var); isVar {
-					pends = append(pends, pend{hs, t.eng.globalRefObj(o)})
-					continue
+					pends = append(pends, pend{hs, t.eng.globalRefObj(o), false})
+					done = true
 				}
-				okAll = false
 			case *ast.SelectorExpr:
 				if pid, ok := n.X.(*ast.Ident); ok {
 					if av := argOf(pid.Name); av != nil {
 						if r, ok := t.objRefTerm(li, av); ok {
 							// promoted fields through embedded structs at offset 0 share the ref
-							pends = append(pends, pend{hs, r})
-							continue
+							pends = append(pends, pend{hs, r, false})
+							done = true
 						}
 					}
 				}
-				okAll = false
-			default:
-				okAll = false
+			}
+			if !done {
+				pends = append(pends, pend{hs, "", true})
 			}
 		}
-		if len(ct.GhostOut) > 0 {
-			for _, g := range ct.GhostOut {
-				if ls := out["G."+g]; ls == nil {
-					out["G."+g] = &locset{whole: true}
-				} else {
+		for _, g := range ct.GhostOut {
+			if ls := out["G."+g]; ls == nil {
+				out["G."+g] = &locset{whole: true}
+			} else {
+				ls.whole = true
+			}
+		}
+		touched := map[string]bool{}
+		for _, p := range pends {
+			for _, h := range p.heaps {
+				touched[h] = true
+				ls := out[h]
+				if ls == nil {
+					ls = &locset{}
+					out[h] = ls
+				}
+				if p.whole {
 					ls.whole = true
+				} else if p.root != "" {
+					ls.roots = append(ls.roots, p.root)
 				}
 			}
 		}
-		if okAll {
-			touched := map[string]bool{}
-			for _, p := range pends {
-				for _, h := range p.heaps {
-					touched[h] = true
-					ls := out[h]
-					if ls == nil {
-						ls = &locset{}
-						out[h] = ls
-					}
-					if p.root != "" {
-						ls.roots = append(ls.roots, p.root)
-					}
+		for h := range heaps {
+			if !touched[h] {
+				if strings.HasPrefix(h, "G.") {
+					continue
+				}
+				if out[h] == nil {
+					out[h] = &locset{}
+				}
+				if h != "$top" && h != "$held" {
+					// a heap reported by callEffects but not located: be conservative
+					out[h].whole = true
 				}
 			}
-			for h := range heaps {
-				if !touched[h] {
-					if strings.HasPrefix(h, "G.") {
-						continue
-					}
-					if out[h] == nil {
-						out[h] = &locset{}
-					}
-					if h != "$top" && h != "$held" {
-						// a heap reported by callEffects but not located: be conservative
-						out[h].whole = true
-					}
-				}
-			}
-			return
 		}
+		return
 	}
 	whole()
 }
